@@ -99,11 +99,12 @@ func Value(r *rand.Rand, v *Vocab, depth int) any {
 func RefValue(r *rand.Rand, v *Vocab) any {
 	if r.Intn(3) == 0 {
 		n := 1 + r.Intn(3)
+		dups := r.Intn(4) == 0 // the same target more than once in one array is valid input
 		seen := map[string]bool{}
 		var a []any
 		for i := 0; i < n; i++ {
 			t := v.IDs[r.Intn(len(v.IDs))]
-			if !seen[t] {
+			if !seen[t] || dups {
 				seen[t] = true
 				a = append(a, t)
 			}
@@ -162,6 +163,30 @@ func Mutate(r *rand.Rand, v *Vocab, prev model.Ent) model.Ent {
 			delete(e.Props, k)
 			break
 		}
+	case 8: // re-shape one reference value: same targets, other multiplicities / fewer members
+		keys := make([]string, 0, len(e.Refs))
+		for k := range e.Refs {
+			keys = append(keys, k)
+		}
+		if len(keys) == 0 {
+			return Entity(r, v, prev.ID)
+		}
+		sort.Strings(keys)
+		k := keys[r.Intn(len(keys))]
+		var a []any
+		for _, t := range model.RefTargets(e.Refs[k]) {
+			switch r.Intn(4) {
+			case 0: // drop
+			case 1:
+				a = append(a, t, t)
+			default:
+				a = append(a, t)
+			}
+		}
+		if len(a) == 0 {
+			a = append(a, model.RefTargets(e.Refs[k])[0])
+		}
+		e.Refs[k] = a
 	default:
 		return Entity(r, v, prev.ID)
 	}
